@@ -242,7 +242,7 @@ class Report:
         return status
 
 
-def triage(rep, native, evaluate_native, sig_of, max_replays_per_sig=2):
+def triage(rep, native, evaluate_native, sig_of, max_replays_per_sig=2, natrun=None):
     """group findings by signature, match against the known-findings file, replay natively.
     evaluate_native(finding, native_obs) -> list of failing messages (empty = not reproduced)."""
     known = load_known()
@@ -258,7 +258,7 @@ def triage(rep, native, evaluate_native, sig_of, max_replays_per_sig=2):
         k = match_known(known, rep.prop, sig)
         confirmed = None
         for f in fs[:max_replays_per_sig]:
-            obs = native.run([f['scen']])[0]
+            obs = natrun(native, f['scen']) if natrun else native.run([f['scen']])[0]
             rep.replays += 1
             bad = evaluate_native(f, obs)
             if bad:
